@@ -18,6 +18,7 @@ value for that item and must rely on the correspondence run for it.
 import json, os, re, sys
 
 import translate_ctl
+from translate_ctl import squash
 import translate_export
 import translate_serde
 import translate_nom
@@ -36,14 +37,102 @@ translate_nom.Unrecognised = Unrecognised
 
 
 def read(rel):
-    with open(os.path.join(SRC, rel)) as f:
-        return f.read()
+    """a source file; a file that is missing (moved, renamed) reads as empty, so that every item taken from it becomes an unrecognised
+    shape (snapshot fallback) instead of a fatal error of the translator"""
+    try:
+        with open(os.path.join(SRC, rel)) as f:
+            return f.read()
+    except OSError:
+        return ""
 
 
 def strip_comments(s):
-    s = re.sub(r"/\*.*?\*/", "", s, flags=re.S)
-    s = re.sub(r"//[^\n]*", "", s)
-    return s
+    """single-pass Rust lexer: removes line comments and (NESTED) block comments, leaves string / raw-string / char literals untouched.
+    A comment opener inside a string or an unterminated construct can therefore not hide code from the translator or from rustc only."""
+    out = []
+    i, n = 0, len(s)
+    while i < n:
+        c = s[i]
+        if s.startswith("//", i):
+            j = s.find("\n", i)
+            i = n if j < 0 else j
+            continue
+        if s.startswith("/*", i):
+            depth, j = 1, i + 2
+            while j < n and depth:
+                if s.startswith("/*", j):
+                    depth += 1
+                    j += 2
+                elif s.startswith("*/", j):
+                    depth -= 1
+                    j += 2
+                else:
+                    j += 1
+            if depth:
+                raise Unrecognised("unterminated block comment")
+            out.append(" ")
+            i = j
+            continue
+        m = re.match(r'b?r(#*)"', s[i:]) if c in "br" else None
+        if m and (i == 0 or not (s[i - 1].isalnum() or s[i - 1] == "_")):
+            close = '"' + m.group(1)
+            j = s.find(close, i + m.end())
+            if j < 0:
+                raise Unrecognised("unterminated raw string")
+            out.append(s[i:j + len(close)])
+            i = j + len(close)
+            continue
+        if c == '"':
+            j = i + 1
+            while j < n and s[j] != '"':
+                j += 2 if s[j] == "\\" else 1
+            if j >= n:
+                raise Unrecognised("unterminated string")
+            out.append(s[i:j + 1])
+            i = j + 1
+            continue
+        if c == "'":
+            m2 = re.match(r"'(\\.[^']*|[^'\\])'", s[i:])
+            if m2:
+                out.append(m2.group(0))
+                i += m2.end()
+                continue
+        out.append(c)
+        i += 1
+    return "".join(out)
+
+
+def strip_nom_string_comments(s):
+    """the string literals inside `#[nom(..)]` attributes hold Rust CODE that nom-derive tokenises (comments in it are ignored by the
+    compiler): remove line comments from those strings so that the recognisers see the tokens only"""
+    out, i = [], 0
+    for m in re.finditer(r"#\[nom\(", s):
+        if m.start() < i:
+            continue
+        depth, j, instr = 0, m.start() + 1, False
+        while j < len(s):
+            ch = s[j]
+            if instr:
+                if ch == "\\":
+                    j += 1
+                elif ch == '"':
+                    instr = False
+            elif ch == '"':
+                instr = True
+            elif ch == "[":
+                depth += 1
+            elif ch == "]":
+                depth -= 1
+                if depth == 0:
+                    break
+            j += 1
+        attr = s[m.start():j + 1]
+        attr = re.sub(r'"((?:[^"\\]|\\.)*)"', lambda mm: '"' + re.sub(r"//[^\n]*", "", mm.group(1)) + '"', attr, flags=re.S)
+        out.append(s[i:m.start()])
+        out.append(attr)
+        i = j + 1
+    out.append(s[i:])
+    return "".join(out)
 
 
 def block_after(s, start_idx):
@@ -61,11 +150,17 @@ def block_after(s, start_idx):
 
 
 def parse_enum(src, name):
-    m = re.search(r"pub\s+enum\s+%s\s*\{" % re.escape(name), src)
-    if not m:
-        raise Unrecognised("enum %s not found" % name)
+    ms = list(re.finditer(r"pub\s+enum\s+%s\s*\{" % re.escape(name), src))
+    if len(ms) != 1:
+        raise Unrecognised("enum %s found %d times" % (name, len(ms)))
+    m = ms[0]
+    head = re.search(r"((?:#\[(?:[^\[\]]|\[[^\]]*\])*\]\s*)*)$", src[max(0, m.start() - 400):m.start()]).group(1)
+    if re.search(r"#\[\s*(serde|nom)\b", head):
+        raise Unrecognised("enum %s: container attribute %r" % (name, squash(head)[:80]))
     body, _ = block_after(src, m.start())
-    body = re.sub(r"#\[[^\]]*\]", "", body)
+    body = re.sub(r"#\[default\]", "", body)
+    if re.search(r"#\s*\[", body):
+        raise Unrecognised("enum %s: attribute on a variant" % name)
     out = []
     nxt = 0
     for item in body.split(","):
@@ -85,11 +180,52 @@ def parse_enum(src, name):
 
 
 def find_impl(src, header_re):
-    m = re.search(header_re, src)
-    if not m:
-        raise Unrecognised("impl %s not found" % header_re)
-    body, _ = block_after(src, m.start())
+    ms = list(re.finditer(header_re, src))
+    if len(ms) != 1:
+        raise Unrecognised("impl %s found %d times" % (header_re, len(ms)))
+    body, _ = block_after(src, ms[0].start())
     return body
+
+
+def sole_fn(impl_body, sig, what):
+    """the impl block is exactly one function whose signature, white space removed, is `sig`; -> its body"""
+    sq = squash(impl_body)
+    if not sq.startswith(sig + "{") or not sq.endswith("}"):
+        raise Unrecognised("%s: the impl is not the single function %s" % (what, sig))
+    i = impl_body.index("{")
+    body, end = block_after(impl_body, i)
+    if impl_body[end:].strip():
+        raise Unrecognised("%s: items after the function" % what)
+    return body
+
+
+def fn_of(impl_body, sig_re, what):
+    """the unique function of the impl block whose header matches sig_re (a regex over the text up to and including `{`); -> its body"""
+    ms = list(re.finditer(sig_re, impl_body))
+    if len(ms) != 1:
+        raise Unrecognised("%s: header found %d times" % (what, len(ms)))
+    body, _ = block_after(impl_body, ms[0].end() - 1)
+    return body
+
+
+def sole_match(fn_body, scrutinee, what):
+    """the function body is exactly `match <scrutinee> { … }` (nothing before it that could rebind the scrutinee or return early,
+    nothing after it that could post-process the result)"""
+    sq = squash(fn_body)
+    head = "match" + scrutinee + "{"
+    if not sq.startswith(head):
+        raise Unrecognised("%s: body does not start with `match %s`" % (what, scrutinee))
+    depth = 0
+    for j in range(len(head) - 1, len(sq)):
+        if sq[j] == "{":
+            depth += 1
+        elif sq[j] == "}":
+            depth -= 1
+            if depth == 0:
+                if j != len(sq) - 1:
+                    raise Unrecognised("%s: statements after the match" % what)
+                return
+    raise Unrecognised("%s: unbalanced" % what)
 
 
 def match_arms(body, scrutinee_re):
@@ -128,6 +264,7 @@ def match_arms(body, scrutinee_re):
 def from_num_table(src, num_ty, enum_name):
     """impl From<u16> for Enum { match item { N => Enum::X, _ => Enum::Y } }  ->  ({N: X}, default)"""
     body = find_impl(src, r"impl\s+From<%s>\s+for\s+%s\s*\{" % (num_ty, enum_name))
+    sole_match(sole_fn(body, "fnfrom(item:%s)->Self" % num_ty, "From<%s> for %s" % (num_ty, enum_name)), "item", "From<%s> for %s" % (num_ty, enum_name))
     tbl, default = {}, None
     for lhs, rhs in match_arms(body, r"item"):
         mm = re.fullmatch(r"%s::([A-Za-z0-9_]+)" % enum_name, rhs)
@@ -155,6 +292,7 @@ FTYPES = {
 
 def ftype_table(src, enum_name):
     body = find_impl(src, r"impl\s+From<%s>\s+for\s+FieldDataType\s*\{" % enum_name)
+    sole_match(sole_fn(body, "fnfrom(d:%s)->FieldDataType" % enum_name, "From<%s> for FieldDataType" % enum_name), "dasu16", "From<%s> for FieldDataType" % enum_name)
     tbl, default = {}, None
     for lhs, rhs in match_arms(body, r"d\s+as\s+u16"):
         mm = re.fullmatch(r"FieldDataType::([A-Za-z0-9]+)", rhs)
@@ -177,10 +315,17 @@ IPV4_FIELDS = set()
 
 def parse_layout(src, struct_name, nth=0):
     """derive(Nom) struct of scalars -> [(name, kind)]; kind = ('wire',w) | ('const',v) | ('protoOf',srcname)"""
-    ms = list(re.finditer(r"pub\s+struct\s+%s\s*\{" % re.escape(struct_name), src))
+    ms = list(re.finditer(r"((?:#\[(?:[^\[\]]|\[[^\]]*\])*\]\s*)*)pub\s+struct\s+%s\s*\{" % re.escape(struct_name), src))
     if len(ms) <= nth:
         raise Unrecognised("struct %s not found" % struct_name)
-    body, _ = block_after(src, ms[nth].start())
+    if len(ms) != 1:
+        raise Unrecognised("struct %s declared %d times" % (struct_name, len(ms)))
+    # struct-level attributes: exactly one derive list that contains Nom; nothing that changes what the derive generates
+    # (`#[nom(LittleEndian)]`, `#[nom(Complete)]`, selectors ...), no serde container attribute, no repr
+    sattrs = squash(ms[nth].group(1))
+    if not re.fullmatch(r"#\[derive\([A-Za-z,]*\)\]", sattrs) or "Nom" not in re.split(r"[(),]", sattrs):
+        raise Unrecognised("struct %s: struct-level attributes %r (want one derive list with Nom and nothing else)" % (struct_name, sattrs))
+    body, _ = block_after(src, ms[nth].end() - 1)
     # split into fields with their attributes
     fields = []
     attrs = []
@@ -200,6 +345,9 @@ def parse_layout(src, struct_name, nth=0):
         mm = re.fullmatch(r"pub\s+([a-z_0-9]+)\s*:\s*([A-Za-z0-9_<>:]+)\s*,?", t)
         name, ty = mm.group(1), mm.group(2)
         nom = [a for a in attrs if a.startswith("#[nom")]
+        if any(not a.startswith("#[nom") for a in attrs):
+            # a serde attribute (rename / skip / with …) changes the JSON of the field, anything else is unknown
+            raise Unrecognised("struct %s.%s: attribute %s" % (struct_name, name, [a for a in attrs if not a.startswith("#[nom")][0][:40]))
         attrs = []
         if not nom:
             if ty not in PRIM:
@@ -269,10 +417,14 @@ def parse_export_order(src, type_name):
             mm = re.fullmatch(r"let (?:mut )?([a-z_0-9]+) = (self\.header|set)\.([a-z_0-9]+)\.(?:to_be_bytes|octets)\(\)(?:\.to_vec\(\))?", st1)
             if mm:
                 sc = "header" if mm.group(2) == "self.header" else "set"
+                if mm.group(1) in env or (sc == "set" and scope_name != "set"):
+                    raise Unrecognised("%s::to_be_bytes: local %s re-declared (shadowing) or `set` used outside the loop" % (type_name, mm.group(1)))
                 env[mm.group(1)] = [(sc, mm.group(3))]
                 continue
             mm = re.fullmatch(r"let mut ([a-z_0-9]+) = vec!\[\]", st1)
             if mm:
+                if mm.group(1) in env:
+                    raise Unrecognised("%s::to_be_bytes: local %s re-declared (shadowing)" % (type_name, mm.group(1)))
                 env[mm.group(1)] = []
                 continue
             mm = re.fullmatch(r"([a-z_0-9]+)\.extend_from_slice\(&([a-z_0-9]+)\)", st1)
@@ -331,44 +483,40 @@ def parse_hdr_export_prefix(src, type_name):
         raise Unrecognised("%s::to_be_bytes" % type_name)
     body, _ = block_after(impl, m.end() - 1)
     order = []
-    stmts = [re.sub(r"\s+", " ", s.strip()) for s in body.split(";")]
-    if not stmts or stmts[0] != "let mut result = vec![]":
+    # white space removed and trailing commas dropped: the run must not depend on how rustfmt wraps a long statement
+    stmts = [re.sub(r"\s+", "", s).replace(",)", ")") for s in body.split(";")]
+    if not stmts or stmts[0] != "letmutresult=vec![]":
         raise Unrecognised("%s::to_be_bytes: first statement %r" % (type_name, stmts[:1]))
     for s in stmts[1:]:
         mm = re.fullmatch(r"result\.extend_from_slice\(&self\.header\.([a-z_0-9]+)\.to_be_bytes\(\)\)", s)
         if not mm:
+            if "self.header" in s.split("{")[0]:
+                # the statement that ends the run still touches the header: a shape this reader does not know (never a shorter list)
+                raise Unrecognised("%s::to_be_bytes: header statement %r" % (type_name, s[:60]))
             break
         order.append(mm.group(1))
     if not order:
         raise Unrecognised("%s::to_be_bytes: no header emission" % type_name)
+    if "self.header" in "".join(stmts[1 + len(order):]):
+        raise Unrecognised("%s::to_be_bytes: header used after the leading run" % type_name)
     return order
 
 
 def parse_dn_arms(src):
     body = find_impl(src, r"impl\s+DataNumber\s*\{")
-    m = re.search(r"pub\s+fn\s+parse\s*\(", body)
-    if not m:
-        raise Unrecognised("DataNumber::parse")
-    fn, _ = block_after(body, m.start())
+    fn = fn_of(body, r"pub\s+fn\s+parse\s*\(\s*i\s*:\s*&\[u8\]\s*,\s*field_length\s*:\s*u16\s*,\s*signed\s*:\s*bool\s*,?\s*\)\s*->\s*IResult<&\[u8\],\s*DataNumber>\s*\{", "DataNumber::parse")
+    sole_match(fn, "(field_length,signed)", "DataNumber::parse")
     m = re.search(r"match\s+\(field_length,\s*signed\)\s*\{", fn)
     if not m:
         raise Unrecognised("DataNumber::parse: match")
-    arms_txt, _ = block_after(fn, m.start())
     arms = []
-    # arms are `(N, bool) => expr,` — split on top-level commas
-    depth, cur, parts = 0, "", []
-    for ch in arms_txt:
-        if ch in "([{":
-            depth += 1
-        if ch in ")]}":
-            depth -= 1
-        if ch == "," and depth == 0:
-            parts.append(cur)
-            cur = ""
-        else:
-            cur += ch
-    if cur.strip():
-        parts.append(cur)
+    parts = []
+    for lhs, rhs in match_arms(fn, r"\(field_length,\s*signed\)"):
+        r = re.sub(r"\s+", " ", rhs.strip())
+        if r.startswith("{") and r.endswith("}"):
+            r = r[1:-1].strip()                      # rustfmt wraps a long arm in a block
+        r = re.sub(r"\s*\n\s*", "", r)
+        parts.append("%s => %s" % (re.sub(r"\s+", " ", lhs.strip()), r))
     has_default = False
     for p in parts:
         p = re.sub(r"\s+", " ", p.strip())
@@ -409,30 +557,48 @@ def parse_dn_arms(src):
 
 
 def parse_common_keys(src, impl_ty, enum_name, en):
+    """`impl From<&V9|&IPFix> for NetflowCommon`: the WHOLE function is matched against one template (white space removed), the
+    field keys and the header timestamp field being the only free parts — the closures (`.and_then(|v| v.try_into().ok())`), the
+    loop nest and the `if let …::Data` filter are fixed text"""
     body = find_impl(src, r"impl\s+From<&%s>\s+for\s+NetflowCommon\s*\{" % impl_ty)
-    body = re.sub(r"\s+", " ", body)
-    def one(target, allow_alt):
-        m = re.search(r"%s: value_map \.get\(&%s::([A-Za-z0-9_]+)\)( \.or_else\(\|\| value_map\.get\(&%s::([A-Za-z0-9_]+)\)\))? ?\.and_then\(" % (target, enum_name, enum_name), body)
-        if not m:
-            raise Unrecognised("common %s: %s" % (impl_ty, target))
-        if bool(m.group(2)) != allow_alt:
-            raise Unrecognised("common %s: %s alt shape" % (impl_ty, target))
-        return (en[m.group(1)], en[m.group(3)]) if allow_alt else en[m.group(1)]
-    s4, s6 = one("src_addr", True)
-    d4, d6 = one("dst_addr", True)
-    m = re.search(r"protocol_type: value_map ?\.get\(&%s::([A-Za-z0-9_]+)\) ?\.and_then\(" % enum_name, body)
+    sq = squash(sole_fn(body, "fnfrom(value:&%s)->Self" % impl_ty, "From<&%s> for NetflowCommon" % impl_ty)).replace(",)", ")").replace(",}", "}")
+    E = re.escape(enum_name)
+    K = lambda n: r"(?P<%s>[A-Za-z0-9_]+)" % n
+    conv = r"\.and_then\(\|v\|v\.try_into\(\)\.ok\(\)\)"
+    get = lambda n: r"value_map\.get\(&%s::%s\)" % (E, K(n))
+    alt = lambda a, b: get(a) + r"\.or_else\(\|\|" + get(b) + r"\)" + conv
+    one = lambda a: get(a) + conv
+    tmpl = (r"letmutflowsets=vec!\[\];forflowsetin&value\.flowsets\{iflet%sFlowSetBody::Data\(data\)=&flowset\.body\{"
+            r"fordata_fieldin&data\.fields\{letvalue_map:BTreeMap<%s,FieldValue>=data_field\.values\(\)\.cloned\(\)\.collect\(\);"
+            r"flowsets\.push\(NetflowCommonFlowSet\{"
+            r"src_addr:" + alt("src4", "src6") + r",dst_addr:" + alt("dst4", "dst6") +
+            r",src_port:" + one("sport") + r",dst_port:" + one("dport") + r",protocol_number:" + one("proto") +
+            r",protocol_type:" + get("proto2") + r"\.and_then\(\|v\|\{?v\.try_into\(\)\.ok\(\)\.map\(\|proto:u8\|ProtocolTypes::from\(proto\)\)\}?\)"
+            r",first_seen:" + one("first") + r",last_seen:" + one("last") + r",src_mac:" + one("smac") + r",dst_mac:" + one("dmac") +
+            r"\}\);\}\}\}NetflowCommon\{version:value\.header\.version,timestamp:value\.header\.(?P<ts>[a-z_]+),flowsets\}") % (re.escape(impl_ty), E)
+    m = re.fullmatch(tmpl, sq)
     if not m:
-        raise Unrecognised("common %s: protocol_type" % impl_ty)
-    keys = {"src4": s4, "src6": s6, "dst4": d4, "dst6": d6, "sport": one("src_port", False), "dport": one("dst_port", False),
-            "proto": one("protocol_number", False), "first": one("first_seen", False), "last": one("last_seen", False),
-            "smac": one("src_mac", False), "dmac": one("dst_mac", False)}
-    if en[m.group(1)] != keys["proto"]:
+        raise Unrecognised("common %s: the conversion is not the recognised loop nest / closure text" % impl_ty)
+    g = m.groupdict()
+    if g["proto2"] != g["proto"]:
         raise Unrecognised("common %s: protocol_type from a different field" % impl_ty)
-    m = re.search(r"version: value\.header\.version, timestamp: value\.header\.([a-z_]+), flowsets", body)
-    if not m:
-        raise Unrecognised("common %s: header projection" % impl_ty)
-    keys["ts"] = m.group(1)
+    keys = {k: en[g[k]] for k in ("src4", "src6", "dst4", "dst6", "sport", "dport", "proto", "first", "last", "smac", "dmac")}
+    keys["ts"] = g["ts"]
     return keys
+
+
+def parse_common_static(src):
+    """`impl From<&V5|&V7> for NetflowCommon`: fixed text (the model's common view of a V5/V7 packet is hard-coded from it)"""
+    for ty in ("V5", "V7"):
+        body = find_impl(src, r"impl\s+From<&%s>\s+for\s+NetflowCommon\s*\{" % ty)
+        sq = squash(sole_fn(body, "fnfrom(value:&%s)->Self" % ty, "From<&%s> for NetflowCommon" % ty)).replace(",)", ")").replace(",}", "}")
+        want = ("NetflowCommon{version:value.header.version,timestamp:value.header.sys_up_time,flowsets:value.flowsets.iter().map(|set|NetflowCommonFlowSet{"
+                "src_addr:Some(set.src_addr.into()),dst_addr:Some(set.dst_addr.into()),src_port:Some(set.src_port),dst_port:Some(set.dst_port),"
+                "protocol_number:Some(set.protocol_number),protocol_type:Some(set.protocol_type),first_seen:Some(set.first),last_seen:Some(set.last),"
+                "src_mac:None,dst_mac:None}).collect()}")
+        if sq != want:
+            raise Unrecognised("From<&%s> for NetflowCommon is not the recognised projection" % ty)
+    return {"commonStaticShape": True}
 
 
 def parse_const(src, name):
@@ -475,10 +641,7 @@ SCALAR_BYTES = {"u8": 1, "u16": 2, "u32": 4, "u64": 8, "u128": 16, "i32": 4, "f6
 def parse_value_arms(src):
     """the arms of FieldValue::from_field_type as descriptors (lean/NetflowModel/Arms.lean: ValueArm)"""
     body = find_impl(src, r"impl\s+FieldValue\s*\{")
-    m = re.search(r"pub\s+fn\s+from_field_type\s*\(", body)
-    if not m:
-        raise Unrecognised("FieldValue::from_field_type")
-    fn, _ = block_after(body, m.start())
+    fn = fn_of(body, r"pub\s+fn\s+from_field_type\s*\(\s*remaining\s*:\s*&\[u8\]\s*,\s*field_type\s*:\s*FieldDataType\s*,\s*field_length\s*:\s*u16\s*,?\s*\)\s*->\s*IResult<&\[u8\],\s*FieldValue>\s*\{", "FieldValue::from_field_type")
     sq = _squash(fn)
     if not sq.startswith("let(remaining,field_value)=matchfield_type{") or not sq.endswith("};Ok((remaining,field_value))"):
         raise Unrecognised("from_field_type: frame")
@@ -533,10 +696,8 @@ def parse_export_arms(src):
     """the arms of FieldValue::to_be_bytes as descriptors (ExportArm)"""
     payload = parse_payload_enum(src, "FieldValue")
     body = find_impl(src, r"impl\s+FieldValue\s*\{")
-    m = re.search(r"pub\s+fn\s+to_be_bytes\s*\(", body)
-    if not m:
-        raise Unrecognised("FieldValue::to_be_bytes")
-    fn, _ = block_after(body, m.start())
+    fn = fn_of(body, r"pub\s+fn\s+to_be_bytes\s*\(\s*&self\s*\)\s*->\s*Result<Vec<u8>,\s*std::io::Error>\s*\{", "FieldValue::to_be_bytes")
+    sole_match(fn, "self", "FieldValue::to_be_bytes")
     arms = []
     for lhs, rhs in match_arms(fn, r"self"):
         mm = re.fullmatch(r"FieldValue::([A-Za-z0-9]+)\(([a-z_]+)\)", lhs)
@@ -564,10 +725,8 @@ def parse_dn_export_arms(src):
     """DataNumber::to_be_bytes arms (DnExportArm) and the From<DataNumber> for usize casts"""
     payload = parse_payload_enum(src, "DataNumber")
     body = find_impl(src, r"impl\s+DataNumber\s*\{")
-    m = re.search(r"(?:pub\s+)?fn\s+to_be_bytes\s*\(", body)
-    if not m:
-        raise Unrecognised("DataNumber::to_be_bytes")
-    fn, _ = block_after(body, m.start())
+    fn = fn_of(body, r"(?:pub\s+)?fn\s+to_be_bytes\s*\(\s*&self\s*\)\s*->\s*Result<Vec<u8>,\s*std::io::Error>\s*\{", "DataNumber::to_be_bytes")
+    sole_match(fn, "self", "DataNumber::to_be_bytes")
     arms = []
     for lhs, rhs in match_arms(fn, r"self"):
         mm = re.fullmatch(r"DataNumber::([A-Z0-9a-z]+)\(([a-z_]+)\)", lhs)
@@ -582,6 +741,7 @@ def parse_dn_export_arms(src):
             arms.append((var.lower(), ".writeU24" if a.group(1) == "u" else ".writeI24")); continue
         raise Unrecognised("DataNumber::to_be_bytes arm %s: %r" % (lhs, r[:120]))
     ub = find_impl(src, r"impl\s+From<DataNumber>\s+for\s+usize\s*\{")
+    sole_match(sole_fn(ub, "fnfrom(val:DataNumber)->Self", "From<DataNumber> for usize"), "val", "From<DataNumber> for usize")
     casts = []
     for lhs, rhs in match_arms(ub, r"val"):
         mm = re.fullmatch(r"DataNumber::([A-Z0-9a-z]+)\(([a-z_]+)\)", lhs)
@@ -657,11 +817,41 @@ def scan_globals():
         for fn in files:
             if fn.endswith(".rs"):
                 txt = strip_comments(open(os.path.join(root, fn)).read())
-                for pat in (r"\bstatic\s+mut\b", r"\bthread_local!", r"\bOnceLock\b", r"\blazy_static!", r"\bOnceCell\b",
-                            r"\bstatic\s+[A-Z_]+\s*:\s*(?:Mutex|RwLock|Atomic)"):
+                for pat in (r"\bstatic\s+mut\b", r"\bthread_local!", r"\bOnceLock\b", r"\blazy_static!", r"\bOnceCell\b", r"\bLazyLock\b", r"\bLazy\b",
+                            r"\bstatic\s+[A-Za-z_0-9]+\s*:\s*(?![&]?'?(?:static\s+)?(?:str|u8|u16|u32|u64|usize|i32|i64|bool|\[))"):
                     if re.search(pat, txt):
                         bad.append((fn, pat))
     return bad
+
+
+def scan_cfg():
+    """conditional compilation the translator does not understand could hide the code it reads behind a dead branch (or swap in
+    a different definition): the only `cfg`s accepted are `#[cfg(test)]` on trailing test modules and the pair of
+    `parse_unknown_fields` attributes in data_number.rs that the `unknownFields` item reads; `cfg!`, `cfg_attr` and macro_rules
+    are refused outright"""
+    seen = []
+    for root, _, files in sorted(os.walk(SRC)):
+        for fn in sorted(files):
+            if not fn.endswith(".rs") or fn == "tests.rs":
+                continue
+            txt = strip_comments(open(os.path.join(root, fn)).read())
+            for m in re.finditer(r"#\s*!?\s*\[\s*cfg\b([^\]]*)\]|\bcfg\s*!\s*\(|\bcfg_attr\b|\bmacro_rules\s*!", txt):
+                seen.append((fn, squash(m.group(0))))
+    allowed_feature = [("data_number.rs", '#[cfg(feature="parse_unknown_fields")]'), ("data_number.rs", '#[cfg(not(feature="parse_unknown_fields"))]'),
+                       ("data_number.rs", "macro_rules!")]          # impl_try_from!, whose body the convArms item checks
+    rest = [x for x in seen if x[1] != "#[cfg(test)]"]
+    if sorted(rest) != sorted(allowed_feature):
+        raise Unrecognised("conditional compilation outside the recognised set: %r" % (sorted(set(rest) - set(allowed_feature)) or rest,))
+    for root, _, files in sorted(os.walk(SRC)):
+        for fn in sorted(files):
+            if fn.endswith(".rs") and fn != "tests.rs":
+                txt = strip_comments(open(os.path.join(root, fn)).read())
+                i = txt.find("#[cfg(test)]")
+                if i >= 0 and not re.match(r"#\[cfg\(test\)\]\s*mod\s+[a-z0-9_]+\s*(\{|;)", txt[i:]):
+                    raise Unrecognised("#[cfg(test)] on something other than a module in %s" % fn)
+                if i >= 0 and txt.count("#[cfg(test)]") != 1:
+                    raise Unrecognised("#[cfg(test)] more than once in %s" % fn)
+    return {"cfgShape": True}
 
 
 def harvest_literals():
@@ -699,6 +889,7 @@ def lean_str(s):
 def gen():
     problems = {}
     out = {}
+    IPV4_FIELDS.clear()
 
     def attempt(key, f):
         try:
@@ -714,11 +905,11 @@ def gen():
     dn = strip_comments(read("variable_versions/data_number.rs"))
     v5 = strip_comments(read("static_versions/v5.rs"))
     v7 = strip_comments(read("static_versions/v7.rs"))
-    v9 = strip_comments(read("variable_versions/v9.rs"))
-    ipf = strip_comments(read("variable_versions/ipfix.rs"))
+    v9 = strip_nom_string_comments(strip_comments(read("variable_versions/v9.rs")))
+    ipf = strip_nom_string_comments(strip_comments(read("variable_versions/ipfix.rs")))
     lib = strip_comments(read("lib.rs"))
     # ---- control skeleton (translate_ctl.py): one item per recognised shape
-    S = {"lib": lib, "v5": v5, "v7": v7, "v9": v9, "ipf": ipf}
+    S = {"lib": lib, "v5": v5, "v7": v7, "v9": v9, "ipf": ipf, "proto": proto}
     for key, f in translate_ctl.ITEMS:
         attempt(key, (lambda f=f: f(S)))
     # ---- the V9 / IPFIX exporters, statement by statement (translate_export.py)
@@ -727,7 +918,7 @@ def gen():
     # ---- derive(Nom) template-record structs as field programs (translate_nom.py)
     attempt("nomStructs", lambda: translate_nom.translate(v9, ipf))
     # ---- JSON member schema of the derive(Serialize) types (translate_serde.py)
-    attempt("serdeSchema", lambda: translate_serde.translate({"lib": lib, "v9": v9, "ipf": ipf, "dn": dn}))
+    attempt("serdeSchema", lambda: translate_serde.translate({"lib": lib, "v9": v9, "ipf": ipf, "dn": dn, "v5": v5, "v7": v7}))
 
     # ---- protocol tables
     def f_proto():
@@ -736,6 +927,7 @@ def gen():
             raise Unrecognised("ProtocolTypes discriminant > 255")
         ft, fd = from_num_table(proto, "u8", "ProtocolTypes")
         body = find_impl(proto, r"impl\s+From<ProtocolTypes>\s+for\s+u8\s*\{")
+        sole_match(sole_fn(body, "fnfrom(item:ProtocolTypes)->Self", "From<ProtocolTypes> for u8"), "item", "From<ProtocolTypes> for u8")
         to = {}
         for lhs, rhs in match_arms(body, r"item"):
             mm = re.fullmatch(r"ProtocolTypes::([A-Za-z0-9_]+)", lhs)
@@ -756,21 +948,32 @@ def gen():
     def f_scope():
         en = dict(parse_enum(v9l, "ScopeFieldType"))
         ft, fd = from_num_table(v9l, "u16", "ScopeFieldType")
-        # which variants ScopeDataField::parse accepts
-        m = re.search(r"impl\s+ScopeDataField\s*\{", v9)
-        body, _ = block_after(v9, m.start())
+        # which variants ScopeDataField::parse accepts: the impl is the single function `parse`, which takes `field_length` bytes
+        # and then is one match on the field type; an accepting arm returns exactly the taken bytes, the default arm fails
+        body = find_impl(v9, r"impl\s+ScopeDataField\s*\{")
+        fn = sole_fn(body, "fnparse<'a>(input:&'a[u8],template_field:&OptionsTemplateScopeField)->IResult<&'a[u8],ScopeDataField>", "ScopeDataField::parse")
+        sq = squash(fn)
+        pre = "let(new_input,field_value)=take(template_field.field_length)(input)?;"
+        if not sq.startswith(pre):
+            raise Unrecognised("ScopeDataField::parse: prologue")
+        sole_match(fn[fn.index("?;") + 2:], "template_field.field_type", "ScopeDataField::parse")
         arms = match_arms(body, r"template_field\.field_type")
-        known = []
+        known, has_default, targets = [], False, []
         for lhs, rhs in arms:
             mm = re.fullmatch(r"ScopeFieldType::([A-Za-z0-9_]+)", lhs)
-            if mm and rhs.startswith("Ok(") or (mm and rhs.startswith("{")):
+            r = squash(rhs)
+            if r.startswith("{") and r.endswith("}"):
+                r = r[1:-1]
+            ok = re.fullmatch(r"Ok\(\(new_input,ScopeDataField::([A-Za-z0-9_]+)\(field_value\.to_vec\(\)\)\)\)", r)
+            if mm and ok:
                 known.append(en[mm.group(1)])
-            elif lhs == "_" and rhs.startswith("Err("):
-                pass
-            elif mm:
-                known.append(en[mm.group(1)])
+                targets.append(ok.group(1))
+            elif lhs == "_" and r == "Err(nom::Err::Error(nom::error::Error::new(input,nom::error::ErrorKind::Verify)))":
+                has_default = True
             else:
-                raise Unrecognised("ScopeDataField::parse arm %r" % lhs)
+                raise Unrecognised("ScopeDataField::parse arm %r => %r" % (lhs, r[:80]))
+        if not has_default or len(set(known)) != len(known) or len(set(targets)) != len(targets):
+            raise Unrecognised("ScopeDataField::parse: default arm / duplicate arms")
         return {"table": sorted((n, en[v]) for n, v in ft.items()), "default": en[fd], "known": sorted(known), "enum": en}
     attempt("scope", f_scope)
 
@@ -803,6 +1006,16 @@ def gen():
     ]:
         attempt(key, (lambda s, n, k: (lambda: parse_layout(s, n, k)))(src, name, nth))
 
+    # the Ipv4Addr-typed fields are collected while the layouts are parsed: an item of its own, so that a layout that fell back to the
+    # snapshot does not silently shrink the list
+    def f_ipv4():
+        for k_ in ("v5Rec", "v7Rec", "v5Hdr", "v7Hdr"):
+            if k_ in problems:
+                raise Unrecognised("layout %s not recognised" % k_)
+        return sorted(IPV4_FIELDS)
+    IPV4_FIELDS_SNAPSHOT_KEY = "ipv4Fields"
+    attempt(IPV4_FIELDS_SNAPSHOT_KEY, f_ipv4)
+
     attempt("v5Order", lambda: parse_export_order(v5, "V5"))
     attempt("v7Order", lambda: parse_export_order(v7, "V7"))
     attempt("v9HdrOrder", lambda: parse_hdr_export_prefix(v9, "V9"))
@@ -813,9 +1026,11 @@ def gen():
     attempt("ipSetMinRange", lambda: parse_const(ipf, "SET_MIN_RANGE"))
 
     def f_default_allowed():
-        m = re.search(r"allowed_versions\s*:\s*\[([0-9,\s]+)\]\s*\.iter\(\)", lib)
+        body = find_impl(lib, r"impl\s+Default\s+for\s+NetflowParser\s*\{")
+        sq = squash(sole_fn(body, "fndefault()->Self", "NetflowParser::default"))
+        m = re.fullmatch(r"Self\{v9_parser:V9Parser::default\(\),ipfix_parser:IPFixParser::default\(\),allowed_versions:\[([0-9,]+)\]\.iter\(\)\.cloned\(\)\.collect\(\),?\}", sq)
         if not m:
-            raise Unrecognised("default allowed_versions")
+            raise Unrecognised("default allowed_versions: %r" % sq[:120])
         return [int(x) for x in m.group(1).split(",") if x.strip()]
     attempt("defaultAllowed", f_default_allowed)
 
@@ -836,8 +1051,10 @@ def gen():
         return d
     attempt("dispatch", f_dispatch)
     attempt("globals", lambda: scan_globals())
+    attempt("shape_cfg", lambda: scan_cfg())
     common = strip_comments(read("netflow_common.rs"))
     attempt("commonFlowTypes", lambda: parse_common_flow_types(common))
+    attempt("shape_commonStatic", lambda: parse_common_static(common))
     attempt("commonV9", lambda: parse_common_keys(common, "V9", "V9Field", out["v9field"]["enum"]))
     attempt("commonIp", lambda: parse_common_keys(common, "IPFix", "IPFixField", out["ipfield"]["enum"]))
     return out, problems
@@ -913,7 +1130,7 @@ def emit(out):
         k = out[key]
         A("def %s : CommonKeys := { %s, ts := %s }" % (key, ", ".join("%s := %d" % (n, k[n]) for n in ("src4", "src6", "dst4", "dst6", "sport", "dport", "proto", "first", "last", "smac", "dmac")), lean_str(k["ts"])))
     A("/-- struct fields of type `Ipv4Addr` (serialised as dotted strings) -/")
-    A("def ipv4Fields : List String := %s" % lean_list(lean_str(x) for x in sorted(IPV4_FIELDS)))
+    A("def ipv4Fields : List String := %s" % lean_list(lean_str(x) for x in sorted(out["ipv4Fields"])))
     A("def scopeNames : List (Nat × String) := %s" % lean_list('(%d, "%s")' % (d, n) for n, d in sorted(out["scope"]["enum"].items(), key=lambda x: x[1])))
     A("def noGlobals : Bool := %s" % ("true" if not out["globals"] else "false"))
     A("")
@@ -965,7 +1182,15 @@ def emit(out):
 def main():
     dest = sys.argv[1] if len(sys.argv) > 1 else os.path.join(os.path.dirname(__file__), "..", "lean", "NetflowModel", "Generated.lean")
     snap = os.path.join(os.path.dirname(os.path.abspath(__file__)), "generated_snapshot.json")
-    out, problems = gen()
+    try:
+        out, problems = gen()
+    except Exception as e:          # a shape so unexpected that a reader itself failed: every item falls back
+        out, problems = {}, {}
+        try:
+            for k in json.load(open(snap)):
+                problems[k] = "translator error: %r" % (e,)
+        except Exception:
+            pass
     summary = {"problems": problems, "fallback": []}
     if problems:
         # per-item fallback to the committed snapshot (DESIGN §1.2)
@@ -984,7 +1209,17 @@ def main():
     # JSON round trip normalises tuples -> lists; re-tuple what emit() needs
     norm = json.loads(json.dumps(out))
     norm["dnArms"] = [((a[0][0], a[0][1]), a[1]) for a in norm["dnArms"]]
-    text = emit(norm)
+    try:
+        text = emit(norm)
+    except Exception as e:
+        # the extracted items are individually well-formed but do not fit together (e.g. a variant the emitter looks up by name was
+        # renamed consistently): emit the snapshot as a whole and report every item as fallen back
+        old_all = json.load(open(snap))
+        summary["problems"]["emit"] = repr(e)
+        summary["fallback"] = sorted(old_all.keys())
+        norm = json.loads(json.dumps(old_all))
+        norm["dnArms"] = [((a[0][0], a[0][1]), a[1]) for a in norm["dnArms"]]
+        text = emit(norm)
     old_text = open(dest).read() if os.path.exists(dest) else None
     if old_text != text:
         with open(dest, "w") as f:
